@@ -10,7 +10,7 @@ from .. import spaces, walk
 from ..alphabet import L, R
 from ..explore import Check, SubSpace, coverage_from, explore, replay_case
 from ..realize import RealProcessor
-from ..refmodel import compare
+from ..refmodel import RefOOC, RefReject, compare, ref_apply
 from ..spaces import S
 from .common import classify_basic, rows_digest
 
@@ -22,7 +22,10 @@ RULE = (
     "its final engine and compared with the reference; the input tree's fingerprint is compared before/after (only "
     "materialization payload slots may change); hook calls are logged (source evaluable by its own engine, never on a "
     "trivial source); process() is repeated (3 calls per tree, and sibling trees share their parent's nodes) and no "
-    "materialization may be computed twice; non-trivial = tree contains a transfer or materialization; distinct = "
+    "materialization may be computed twice; then the tree process() RETURNED is extended by a materialization (directly and "
+    "after one more transfer into each other engine) and processed twice with the same oracles (history: build on a "
+    "processed tree); the transfer hook returns a cacheable payload only when asked to (materialize_as), else one that "
+    "re-evaluates its source on every read; non-trivial = tree contains a transfer or materialization; distinct = "
     "distinct (tree, rows) digests"
 )
 
@@ -119,15 +122,11 @@ class C07(Check):
         rel, val, ctx = tr.rel, tr.val, tr.ctx
         multi = any(isinstance(n, (Transfer, Materialization)) for n in walk.spine_walk(rel))
         tr.nontrivial = multi
-        from ..findings import sql_materialization_over_changing_upstream
-
-        # cause test of KF-PROCESSOR-SQL-MATERIALIZATION must look at the tree *before* processing fills payloads
-        tr.pre_state_flag = sql_materialization_over_changing_upstream(rel)
         before = fingerprint(rel)
         had_payload = {id(m) for m in materializations(rel) if m.payload is not None}
         outs = []
         for call in range(3):
-            proc = RealProcessor(ctx)
+            proc = RealProcessor(ctx, lazy_transfers=True)
             try:
                 out = proc.process(rel)
             except Exception as e:  # noqa: BLE001
@@ -203,7 +202,68 @@ class C07(Check):
                     return True
             before = after
         tr.outcome = (walk.key(rel), rows_digest(outs[0]))
+        if out is not rel:
+            self.follow_up(tr, out)
         return True
+
+    def follow_up(self, tr, out):
+        """History variant: the caller keeps building on the tree process() RETURNED (its transfers hold
+        payloads): a materialization, directly or after one more transfer, then process() twice."""
+        ctx, val = tr.ctx, tr.val
+        scen = tr.sub.world.scenario()
+        others = [name for name, _ in tr.sub.world.engines if name != val.eng]
+        for seq in [(("mat", "mF"),)] + [(("xfer", e), ("mat", "mF")) for e in others]:
+            rel2, val2 = out, val
+            for fop in seq:
+                try:
+                    rel2 = ctx.apply(rel2, fop)
+                except Exception:  # noqa: BLE001
+                    rel2 = None
+                try:
+                    val2 = ref_apply(val2, fop, scen, None)
+                except (RefReject, RefOOC):
+                    val2 = None
+                if rel2 is None or val2 is None:
+                    break
+            if rel2 is None or val2 is None:
+                tr.count("followup_not_applicable")
+                continue
+            tr.count("followup_programs")
+            what = "processed tree ; " + " ; ".join(f"{o[0]}({o[1]})" for o in seq)
+            for call in range(2):
+                proc = RealProcessor(ctx, lazy_transfers=True)
+                try:
+                    out2 = proc.process(rel2)
+                except Exception as e:  # noqa: BLE001
+                    tr.violation("followup-process-raised", f"{what}: process() call #{call + 1}: {type(e).__name__}: {str(e)[:200]}", exc=type(e).__name__)
+                    return
+                for kind, src, trivial, name in proc.log:
+                    if trivial:
+                        tr.violation("hook-on-trivial-source", f"{what}: {kind} hook invoked for statically trivial source {src}")
+                        return
+                    if call == 1 and name == "mF":
+                        tr.violation("materialization-recomputed", f"{what}: {kind} hook ran again for materialization 'mF' on the second process()")
+                        return
+                for m in reachable_materializations(rel2):
+                    if m.payload is None:
+                        tr.violation("materialization-without-payload", f"{what}: after process() call #{call + 1} materialization {m.name!r} still has no payload")
+                        return
+                try:
+                    got = ctx.rows_of(out2)
+                except Exception as e:  # noqa: BLE001
+                    tr.violation("processed-tree-not-executable", f"{what}: call #{call + 1}: {type(e).__name__}: {str(e)[:200]}", exc=type(e).__name__)
+                    return
+                strength, ok, detail = compare(val2, got)
+                if not ok:
+                    tr.violation("rows", f"{what}: call #{call + 1}: {detail} ({strength}): expected {list(val2.rows)[:6]} got {got[:6]}; processed={out2}")
+                    return
+                # a cached materialization must not re-read its upstream: lazy transfer payloads below it stay untouched
+                lazies = [n.payload for n in walk.walk(out2) if isinstance(n, Transfer) and hasattr(n.payload, "reads")]
+                before = [p.reads for p in lazies]
+                ctx.rows_of(out2)
+                if [p.reads for p in lazies] != before and isinstance(out2, Materialization):
+                    tr.violation("materialization-not-cached", f"{what}: reading the processed materialization re-evaluated a transfer below it")
+                    return
 
 
 def run(tier, seed):
